@@ -1,7 +1,7 @@
 (** Proofs about Matcher.v. *)
 From Coq Require Import String.
 From Cvg Require Import Base Re Unicode Matcher.
-From Cvg.proofs Require Import ReProofs.
+From Cvg.proofs Require Import ReProofs ReFuelProofs.
 Open Scope N_scope.
 
 (** IdentMatcher: equality, or Unicode simple-fold equality rune by rune. *)
@@ -68,3 +68,7 @@ Proof.
   destruct (parse_re UT (pattern_expr p true)); destruct (parse_re UT (s2b "(?i)" ++ pattern_expr p true));
     cbn [pclass] in H; try discriminate; split; congruence.
 Qed.
+
+(** ... and the parser never exhausts its fuel (ReFuelProofs.v): unconditionally *)
+Lemma validity_case_independent_always p : validity_case_independent p.
+Proof. apply validity_is_case_independent. apply parse_re_never_out_of_fuel. Qed.
